@@ -23,6 +23,10 @@
      "fanA"   publish; scores; publish; hb; publish (fanout maintenance: drop below publish)
      "fanB"   scores; publish; hb; publish          (fanout selection, flood publish)
      "joinfan" publish; scores; join; hb            (fanout promotion drops negative scores)
+     "floodmesh" join; scores; publish; msg from p3; hb; publish   (flood publishing ON: the score of a MESH member
+               (p1) and of p2 - mesh member / floodsub peer / direct peer by variant - drops between two
+               heartbeats and the node publishes at once; the forwarded message is the contrast: it does go to the mesh)
+     "floodplain" as floodmesh, but p2 PRUNEs first and is a plain topic peer outside the mesh
      "graftfull" small degrees (D=2,Dlo=1,Dhi=3,Dscore=1,Dout=0), five inbound peers: the node joins, p2..p5
                GRAFT until the mesh is at Dhi; score(p1,v); GRAFT from p1; hb  (negative score AND mesh full:
                the mesh-full refusal is the only one that keeps PX, so the order of the checks matters)
@@ -61,6 +65,9 @@ Variants(f) ==
     CASE f = "rpc1"  -> {Variant({}, {}, FALSE, TRUE, TRUE), Variant({}, {}, FALSE, FALSE, FALSE), Variant({"p1"}, {}, FALSE, TRUE, TRUE)}
       [] f = "rpc2"  -> {Variant({}, {}, FALSE, TRUE, TRUE)}
       [] f = "mix"   -> {Variant({}, {}, FALSE, TRUE, TRUE), Variant({"p1"}, {}, FALSE, TRUE, TRUE)}
+      [] f = "floodmesh" -> {Variant({}, {}, TRUE, FALSE, FALSE), Variant({}, {"p2"}, TRUE, FALSE, FALSE),
+                            Variant({"p2"}, {}, TRUE, FALSE, FALSE)}
+      [] f = "floodplain" -> {Variant({}, {}, TRUE, FALSE, FALSE)}
       [] f \in {"graftfull", "graftbo"} -> {Variant({}, {}, FALSE, TRUE, TRUE)}
       [] f = "px"    -> {Variant({}, {}, FALSE, TRUE, TRUE), Variant({}, {}, FALSE, FALSE, FALSE)}
       [] f = "gater" -> {Variant({}, {}, FALSE, TRUE, TRUE), Variant({"p1"}, {}, FALSE, TRUE, TRUE)}
@@ -111,6 +118,10 @@ Prog ==
                                    ScoreSlot(Probe, GV), {In("rpc", Probe, 0, {"graft"}, <<>>)}, Plain("hb")>>
       [] Family = "graftbo" -> <<{In("rpc", Probe, 0, {"prune"}, <<>>)}, ScoreSlot(Probe, GV),
                                  {In("rpc", Probe, 0, {"graft"}, <<>>)}, Plain("hb")>>
+      [] Family = "floodmesh" -> <<Plain("join")>> \o Vec \o
+                                 <<Plain("publish"), {In("rpc", "p3", 0, {"msg"}, <<>>)}, Plain("hb"), Plain("publish")>>
+      [] Family = "floodplain" -> <<Plain("join"), {In("rpc", "p2", 0, {"prune"}, <<>>)}>> \o Vec \o
+                                  <<Plain("publish"), {In("rpc", "p3", 0, {"msg"}, <<>>)}, Plain("hb"), Plain("publish")>>
       [] Family = "meshA"   -> <<Plain("join")>> \o Vec \o <<Plain("publish"), {In("rpc", "p2", 0, {"msg"}, <<>>)}, Plain("hb"), Plain("hb")>>
       [] Family = "meshB"   -> Vec \o <<Plain("join"), Plain("publish"), Plain("hb")>>
       [] Family = "fanA"    -> <<Plain("publish")>> \o Vec \o <<Plain("publish"), Plain("hb"), Plain("publish")>>
